@@ -28,6 +28,7 @@ func runC05(w *World, r *Report, tier string) {
 	unresolvedSeeds(w, r)
 	entries := entryFuncs(w, r, "detector.CheckSpatialIdsOverlap", "detector.CheckSpatialIdsArrayOverlap",
 		"detector.CheckExtendedSpatialIdsOverlap", "detector.CheckExtendedSpatialIdsArrayOverlap")
+	ruleChunks(w, r, closureOf(w, entries))
 	cl := closureOf(w, entries)
 	r.Analysed["closure_functions"] = len(cl)
 	det := map[*ssa.Function]bool{}
@@ -74,6 +75,7 @@ func runC06(w *World, r *Report, tier string) {
 	kindRuleTexts(r)
 	unresolvedSeeds(w, r)
 	entries := entryFuncs(w, r, "shape.GetExtendedSpatialIdsOnLine", "shape.GetSpatialIdsOnLine")
+	ruleChunks(w, r, closureOf(w, entries))
 	cl := closureOf(w, entries)
 	r.Analysed["closure_functions"] = len(cl)
 	own := map[*ssa.Function]bool{}
@@ -121,6 +123,7 @@ func runC08(w *World, r *Report, tier string) {
 	unresolvedSeeds(w, r)
 	entries := entryFuncs(w, r, "operated.Get6spatialIdsAdjacentToFaces", "operated.Get8spatialIdsAroundHorizontal",
 		"operated.Get26spatialIdsAroundVoxel", "operated.GetNspatialIdsAroundVoxcels")
+	ruleChunks(w, r, closureOf(w, entries))
 	cl := closureOf(w, entries)
 	r.Analysed["closure_functions"] = len(cl)
 	own := map[*ssa.Function]bool{}
